@@ -219,6 +219,28 @@ def _check_merge(cx, fn, alias, kind):
                     if root_place(fn, place)["l"] == 2 and pn == sname and fn.cfg.dominates(edge, bi):
                         ok = True
             cx.check("only-when-present:%s:%s" % (kind, dest), ok, site_of(fn, span=span), "%s is overwritten only when the source value is present (Some)" % dest)
+            # ... and on nothing else: every branch the store is control-dependent on tests the source (param 2)
+            foreign = []
+            for e in fn.cfg.controlling_edges(bi):
+                sb = e[1]
+                tt = fn.blocks[sb]["term"]
+                if tt["k"] != "switch":
+                    continue
+                dl = op_local(tt["discr"])
+                dd = defuse(fn).single_def(dl) if dl is not None else None
+                src_ok = False
+                if dd and dd[0] == "stmt":
+                    rvv = dd[3]["rv"]
+                    pl = rvv.get("place") if rvv["k"] == "discr" else (op_place(rvv.get("op", {})) if rvv["k"] == "use" else None)
+                    if pl is not None and root_place(fn, pl)["l"] == 2:
+                        src_ok = True
+                elif dd and dd[0] == "call":
+                    rr = [deep_root(fn, a) for a in dd[2]["args"]]
+                    src_ok = bool(rr) and all(r is not None and r["l"] == 2 for r in rr)
+                if not src_ok:
+                    foreign.append(sb)
+            cx.check("depends-only-on-source:%s:%s" % (kind, dest), not foreign, site_of(fn, span=span),
+                     "the overwrite of %s is conditional on the presence of the source value only (not on the current value or another setting)" % dest)
     return covered
 
 
